@@ -159,6 +159,23 @@ Section Loops.
       '(t2, it2) <- pull_ignore k it1 ;; Some (t ++ t2, it2)
     end.
 
+  (* up to k pulls whose outputs are discarded, EXCEPT an Error output, which ends the loop and is returned:
+     Skip::skip_remaining (`None => break`: stop_on_none = true) and the `step - 1` pulls of Step::next
+     (which keeps pulling after a None: stop_on_none = false) *)
+  Fixpoint discard (stop_on_none : bool) (k : nat) (it : iter) : option (trace * option N * iter) :=
+    match k with
+    | O => Some ([], None, it)
+    | S k =>
+      '(t, o, it1) <- nx it ;;
+      match o with
+      | Some (OErr e) => Some (t, Some e, it1)
+      | Some _ => '(t2, r, it2) <- discard stop_on_none k it1 ;; Some (t ++ t2, r, it2)
+      | None =>
+        if stop_on_none then Some (t, None, it1)
+        else '(t2, r, it2) <- discard stop_on_none k it1 ;; Some (t ++ t2, r, it2)
+      end
+    end.
+
   (* Chunks::next: `for output in self.iter.clone().take(k)`; inl = the chunk, inr = an error *)
   Fixpoint chunk_loop (k : nat) (it : iter) (acc : list value) : option (trace * (list value + N) * iter) :=
     match k with
@@ -385,21 +402,21 @@ Fixpoint step (n : nat) (d : dir) (it : iter) {struct n} : option R :=
     (* ---- Reversed ---- *)
     | Reversed i, Fwd => '(t, o, i') <- step n Bwd i ;; Some (t, o, Reversed i')
     | Reversed i, Bwd => '(t, o, i') <- step n Fwd i ;; Some (t, o, Reversed i')
-    (* ---- Skip ---- *)
-    | Skip i r, Fwd =>
-      if 0 <? r then '(t, o, i') <- nth_ (step n Fwd) (N.to_nat r) i ;; Some (t, o, Skip i' 0)
-      else '(t, o, i') <- step n Fwd i ;; Some (t, o, Skip i' 0)
-    | Skip i r, Bwd =>
-      (* "Ensure the forward output has been skipped before yielding output from the back" *)
-      if 0 <? r then
-        '(t1, _, i1) <- nth_ (step n Fwd) (N.to_nat (r - 1)) i ;;
-        '(t2, o, i2) <- step n Bwd i1 ;; Some (t1 ++ t2, o, Skip i2 0)
-      else '(t2, o, i2) <- step n Bwd i ;; Some (t2, o, Skip i2 0)
-    (* ---- Step ---- *)
+    (* ---- Skip: skip_remaining() (remaining is taken first), then next / next_back ---- *)
+    | Skip i r, _ =>
+      '(t1, err, i1) <- discard (step n Fwd) true (N.to_nat r) i ;;
+      match err with
+      | Some e => Some (t1, Some (OErr e), Skip i1 0)
+      | None => '(t2, o, i2) <- step n d i1 ;; Some (t1 ++ t2, o, Skip i2 0)
+      end
+    (* ---- Step: an Error among the step-1 discarded pulls is returned instead of the element ---- *)
     | Step i k, Fwd =>
       '(t, o, i1) <- step n Fwd i ;;
-      '(t2, i2) <- pull_ignore (step n Fwd) (N.to_nat (k - 1)) i1 ;;
-      Some (t ++ t2, o, Step i2 k)
+      '(t2, err, i2) <- discard (step n Fwd) false (N.to_nat (k - 1)) i1 ;;
+      match err with
+      | Some e => Some (t ++ t2, Some (OErr e), Step i2 k)
+      | None => Some (t ++ t2, o, Step i2 k)
+      end
     (* ---- Take ---- *)
     | Take i r, Fwd =>
       if 0 <? r then '(t, o, i') <- step n Fwd i ;; Some (t, o, Take i' (r - 1))
